@@ -313,6 +313,12 @@ func (maps *trackedMaps) processUnfiltered(ctx context.Context, ef *Filter, filt
 				v.SetMapIndex(key, f)
 
 			case fkind == reflect.Map:
+				if _, ok := maps.getTracked(field.Pointer()); ok {
+					// this map is tracked itself (some of its fields were filtered
+					// via pointer tags) and is filtered on its own, honouring the
+					// fields which have already been filtered.
+					continue
+				}
 				newMaps, err := newTrackedMaps(&tMap{value: field})
 				if err != nil {
 					return fmt.Errorf("%s: unable to filter map: %w", op, err)
